@@ -200,8 +200,8 @@ def Field.all : List Field :=
 /-- a count as the code sees it: a `usize` -/
 def cnt (v : Rat) : Int := (v.floor.toNat : Int)
 
-/-- `fieldPipeline f v p`: what the code does with source value `v` destined for field `f` under profile `p`. -/
-def fieldPipeline : Field → Rat → Profile → Outcome
+/-- `fieldPipelineOld f v p`: what the code does with source value `v` destined for field `f` under profile `p`. -/
+def fieldPipelineOld : Field → Rat → Profile → Outcome
   | .outlineCoord, v, _ => .ok (otRoundI16 v : Int)
   | .pointDelta, v, p => subI16 p v.floor 0
   | .compOffset, v, _ => .ok (otRoundI16 v : Int)
@@ -251,43 +251,43 @@ instance (f : Field) (v : Rat) : Decidable (Representable f v) := by
 
 /-- Fields whose pipeline contains an unchecked fixed-width `+` / `-`: the only ones on which the two build
     profiles can differ. -/
-def profileSensitive : Field → Bool
+def profileSensitiveOld : Field → Bool
   | .pointDelta | .tsb | .endPt | .compositeTotal => true
   | _ => false
 
 /-- The property, per field: the build fails, falls back, or the emitted value is the ideal one. -/
-def RejectsOrExact (f : Field) (v : Rat) (p : Profile) : Prop :=
-  match fieldPipeline f v p with
+def RejectsOrExactOld (f : Field) (v : Rat) (p : Profile) : Prop :=
+  match fieldPipelineOld f v p with
   | .ok w => w = ideal f v
   | _ => True
 
-instance (f : Field) (v : Rat) (p : Profile) : Decidable (RejectsOrExact f v p) := by
-  unfold RejectsOrExact; split <;> infer_instance
+instance (f : Field) (v : Rat) (p : Profile) : Decidable (RejectsOrExactOld f v p) := by
+  unfold RejectsOrExactOld; split <;> infer_instance
 
 /-! ## 4. End-to-end predictions used by the driver (compositions of the stages above) -/
 
 /-- Value a reader finds at a NON-default master for a field stored as default + delta·1:
     `store`/`delta` are the narrowing of the default value and of the delta, `mv` the (rounded) master values. -/
-def atMasterI16 (v0 v1 : Rat) : Int :=
+def atMasterI16Old (v0 v1 : Rat) : Int :=
   let d := otRoundI16 v0
   d + otRoundI16 ((otRound v1 - d : Int) : Rat)
 
 /-- hmtx + HVAR at the second master: hmtx stores `otRoundU16 v0`; the HVAR delta is computed between the
     UNSATURATED rounded advances (`OtRound<f64>`, metric_variations.rs:106) and then narrowed to i16. -/
-def advanceAtMaster (v0 v1 : Rat) : Int :=
+def advanceAtMasterOld (v0 v1 : Rat) : Int :=
   otRoundU16 v0 + otRoundI16 ((otRound v1 - otRound v0 : Int) : Rat)
 
 /-! ## 5. Predicates used in the statements of FontcProps/C19.lean -/
 
 /-- where an unchecked fixed-width `+`/`-` overflows (the only source of profile dependence) -/
-def Overflows : Field → Rat → Prop
+def OverflowsOld : Field → Rat → Prop
   | .pointDelta, v | .tsb, v => ¬ inI16 v.floor
   | .endPt, v => wrapU16 (cnt v) = 0
   | .compositeTotal, v => 65535 < cnt v
   | _, _ => False
 
-instance (f : Field) (v : Rat) : Decidable (Overflows f v) := by
-  cases f <;> unfold Overflows <;> infer_instance
+instance (f : Field) (v : Rat) : Decidable (OverflowsOld f v) := by
+  cases f <;> unfold OverflowsOld <;> infer_instance
 
 
 /-- the nine fields narrowed by `ot_round()` into an i16 -/
